@@ -26,6 +26,7 @@ The witness used for the mass and energy findings (`cog17_witness`: α = 3/2, β
 import EPV.Gen.Cog17D
 import EPV.Spec.Euler1D
 import EPV.Lemmas.Euler1Db
+import EPV.Lemmas.HydroRobust
 import EPV.Tactics
 
 set_option linter.all false
@@ -47,18 +48,18 @@ theorem cog17_mass_residual (p : Cog17.P) (r t : ℝ) (hr : 0 < r) (ht : 0 < t)
   have hρr : dr (Cog17.L1.density p) r t
       = ((((2 : ℝ) * p.beta) - 4) * ((1 : ℝ) / (1 - p.alpha))) * Cog17.L1.density p r t / r := by
     unfold dr
-    rw [(Cog17.L1.density_hasDerivAt_r p r t hr).deriv]
+    epv_hydro_rw_derivs [Cog17.L1.density_hasDerivAt_r p r t]
     simp only [epv_deriv, epv_leaf]
     ring
   have hρt : dt (Cog17.L1.density p) r t
       = ((((2 : ℝ) * p.beta) + 5) * ((1 : ℝ) / (1 - p.alpha))) * Cog17.L1.density p r t / t := by
     unfold dt
-    rw [(Cog17.L1.density_hasDerivAt_t p r t ht).deriv]
+    epv_hydro_rw_derivs [Cog17.L1.density_hasDerivAt_t p r t]
     simp only [epv_deriv, epv_leaf]
     ring
   have hur : dr (Cog17.L1.velocity p) r t = Cog17.L1.velocity p r t / r := by
     unfold dr
-    rw [(Cog17.L1.velocity_hasDerivAt_r p r t).deriv]
+    epv_hydro_rw_derivs [Cog17.L1.velocity_hasDerivAt_r p r t]
     simp only [epv_deriv, epv_leaf]
     have hr' := hr.ne'
     field_simp
@@ -79,14 +80,14 @@ theorem cog17_momentum (p : Cog17.P) (r t : ℝ) (hwd : Cog17.L1.WellDefined p r
   have hρr : dr (Cog17.L1.density p) r t
       = ((((2 : ℝ) * p.beta) - 4) * ((1 : ℝ) / (1 - p.alpha))) * Cog17.L1.density p r t / r := by
     unfold dr
-    rw [(Cog17.L1.density_hasDerivAt_r p r t hr).deriv]
+    epv_hydro_rw_derivs [Cog17.L1.density_hasDerivAt_r p r t]
     simp only [epv_deriv, epv_leaf]
     ring
   unfold momResT
   rw [hρr]
   unfold dr dt
-  rw [(Cog17.L1.velocity_hasDerivAt_t p r t ht.ne').deriv, (Cog17.L1.velocity_hasDerivAt_r p r t).deriv,
-    (Cog17.L1.temperature_hasDerivAt_r p r t).deriv]
+  epv_hydro_rw_derivs [Cog17.L1.velocity_hasDerivAt_t p r t, Cog17.L1.velocity_hasDerivAt_r p r t,
+    Cog17.L1.temperature_hasDerivAt_r p r t]
   have hρne' : Cog17.L1.density p r t ≠ 0 := hρne
   generalize Cog17.L1.density p r t = ρ at hρne' ⊢
   simp only [epv_deriv, epv_leaf]
@@ -120,8 +121,8 @@ theorem cog17_energy_residual (p : Cog17.P) (r t : ℝ) (hwd : Cog17.L1.WellDefi
     simp only [epv_leaf, ← hΘeq]; positivity
   rw [energyResT_powerLaw _ _ _ _ _ _ _ _ _ _ _ _ _ _ _ r t hr hR hΘ hρ hT]
   unfold energyHydroT dr dt
-  rw [(Cog17.L1.temperature_hasDerivAt_t p r t ht.ne').deriv, (Cog17.L1.temperature_hasDerivAt_r p r t).deriv,
-    (Cog17.L1.velocity_hasDerivAt_r p r t).deriv]
+  epv_hydro_rw_derivs [Cog17.L1.temperature_hasDerivAt_t p r t, Cog17.L1.temperature_hasDerivAt_r p r t,
+    Cog17.L1.velocity_hasDerivAt_r p r t]
   generalize Cog17.L1.density p r t ^ p.alpha * Cog17.L1.temperature p r t ^ p.beta
     * Cog17.L1.temperature p r t ^ (4 : ℕ) = Φ
   have hρne' : Cog17.L1.density p r t ≠ 0 := hρne
